@@ -181,6 +181,101 @@ fn check_probe(ctx: &Ctx, form_ids: &[usize], via: usize, stats: &mut Stats) -> 
     }
 }
 
+/// Binder forms with an annotation; `§` is the binder's name.  Naming the binder after a name that occurs in
+/// its *own* annotation is a capture-free renaming: a binder does not scope over its annotation.
+const SELF_ANNOTATION_FORMS: &[(&str, &[&str])] = &[
+    ("( ( fn ( § : Int64 ) => ret § ) : Int64 -> Ret Int64 ) 41", &["Int64"]),
+    // (an earlier parameter does scope over the annotations of later ones, so only the last one qualifies)
+    ("( ( fn ( w : Int64 ) ( § : Int64 ) => ret § ) : Int64 -> Int64 -> Ret Int64 ) 1 41", &["Int64"]),
+    ("let ( § : Int64 ) = 41 in ret §", &["Int64"]),
+    ("let § : Int64 = 41 in ret §", &["Int64"]),
+    ("let ( ( w : String ) , ( § : Int64 ) ) = ( \"s\" , 41 ) in ret §", &["Int64", "String"]),
+    ("let ( ( § : Int64 ) , ( w : String ) ) = ( 41 , \"s\" ) in ret §", &["Int64"]),
+    ("do ( § : Int64 ) <- ret 41 ; ret §", &["Int64"]),
+    ("( ( comatch | ( § : Int64 ) => ret § end ) : Int64 -> Ret Int64 ) 41", &["Int64"]),
+    ("let ! § : Ret Int64 = ret 41 in ! §", &["Ret", "Int64"]),
+    ("( ( fix ( § : Thk ( Ret Int64 ) ) => ret 41 ) : Ret Int64 )", &["Thk", "Ret", "Int64"]),
+    ("let § : Thk ( Int64 -> Ret Int64 ) = { fn ( w : Int64 ) => ret w } in ! § 41", &["Thk", "Ret", "Int64"]),
+    ("( ( fn ( § : Thk ( Ret Int64 ) ) => ! § ) : Thk ( Ret Int64 ) -> Ret Int64 ) { ret 41 }", &["Thk", "Ret", "Int64"]),
+];
+
+fn run_exit(ctx: &Ctx, text: &str) -> Result<String, PanicInfo> {
+    let dir = thread_dir(ctx);
+    let path = dir.join("probe.zy");
+    std::fs::write(&path, text).unwrap();
+    let session = CompilerSession::default();
+    Ok(match drive::analyze_executable(&session, &path) {
+        | Analyzed::Panic(p) => return Err(p),
+        | Analyzed::Executable(exe, _) => format!("accepted, {:?}", drive::run_executable(exe, b"", &[], 200_000).end),
+        | Analyzed::NotAccepted(front) => format!("rejected: {:?}", front.kinds.iter().take(2).collect::<Vec<_>>()),
+        | Analyzed::AcceptedOther(_, why) => format!("not executable: {why}"),
+    })
+}
+
+fn check_self_annotation(ctx: &Ctx, form: &str, name: &str, stats: &mut Stats) -> Result<(), Fail> {
+    let pre = print::prelude(&ctx.repo_root);
+    let wrap = |n: &str| format!("{pre}( do r <- ( {} ) ; ! ( process / exit ) r : OS )\n", form.replace('§', n));
+    stats.eval();
+    let base = run_exit(ctx, &wrap("fresh0")).map_err(|p| Fail::new(format!("probe-{}", p.signature()), "a verdict", p.describe()))?;
+    let renamed = run_exit(ctx, &wrap(name)).map_err(|p| Fail::new(format!("probe-{}", p.signature()), "a verdict", p.describe()))?;
+    let case = json!({"form": form, "binder_named": name});
+    if !base.starts_with("accepted, Exit(41)") {
+        return Err(Fail::new("harness-probe-not-accepted-under-a-fresh-name", "accepted, Exit(41)", base).with(case));
+    }
+    if renamed != base {
+        return Err(Fail::new(
+            "binder-scopes-over-its-own-annotation",
+            format!("as with a fresh binder name: {base} (a binder named like a name in its own annotation captures nothing)"),
+            renamed,
+        )
+        .with(case));
+    }
+    stats.nontrivial(hash_of(&(form, name)));
+    stats.sample(|| case.clone());
+    Ok(())
+}
+
+/// A `that` binder that reuses an enclosing binder's name wins inside its block, whatever the sizes of the
+/// block and of the inherited environment: `extra` further definitions in the block; the block sits under a
+/// function parameter in the root (large inherited environment), under `outer` extra lexical binders, or in
+/// an imported source (empty inherited environment).
+fn check_block_shadow(ctx: &Ctx, extra: usize, outer: usize, imported: bool, stats: &mut Stats) -> Result<(), Fail> {
+    stats.eval();
+    let dir = thread_dir(ctx).join("bs");
+    let _ = std::fs::remove_dir_all(&dir);
+    std::fs::create_dir_all(&dir).unwrap();
+    let mut block = String::from("begin let given = 42 that");
+    for i in 0..extra {
+        block.push_str(&format!(" let a{i} = {i} that"));
+    }
+    block.push_str(" ret given end");
+    let mut inner = block;
+    for i in 0..outer {
+        inner = format!("let o{i} = {i} in {inner}");
+    }
+    let text = if imported {
+        std::fs::write(dir.join("helper.zy"), format!("fn ( given : ( @(intrinsic(i64)) ) ) => {inner}\n")).unwrap();
+        format!("{}( do r <- ! {{ @(import(\"helper.zy\")) }} 7 ; ! ( process / exit ) r : OS )\n", print::prelude(&ctx.repo_root))
+    } else {
+        format!("{}( do r <- ( ( fn ( given : Int64 ) => {inner} ) : Int64 -> Ret Int64 ) 7 ; ! ( process / exit ) r : OS )\n", print::prelude(&ctx.repo_root))
+    };
+    let path = dir.join("root.zy");
+    std::fs::write(&path, &text).unwrap();
+    let session = CompilerSession::default();
+    let case = json!({"block_definitions": extra + 1, "outer_lexical_binders": outer + 1, "imported": imported});
+    let got = match drive::analyze_executable(&session, &path) {
+        | Analyzed::Panic(p) => return Err(Fail::new(format!("probe-{}", p.signature()), "a verdict", p.describe()).with(case)),
+        | Analyzed::Executable(exe, _) => format!("accepted, {:?}", drive::run_executable(exe, b"", &[], 400_000).end),
+        | Analyzed::NotAccepted(front) => format!("rejected: {:?}", front.kinds.iter().take(2).collect::<Vec<_>>()),
+        | Analyzed::AcceptedOther(_, why) => format!("not executable: {why}"),
+    };
+    if got != "accepted, Exit(42)" {
+        return Err(Fail::new("block-definition-does-not-shadow-the-enclosing-binder", "accepted, Exit(42): the block's `let given = 42 that` shadows the parameter `given` (7)", got).with(case));
+    }
+    stats.nontrivial(hash_of(&(extra, outer, imported)));
+    Ok(())
+}
+
 /// `that` bindings do not cross block boundaries outward.
 const THAT_PROBES: &[(&str, bool)] = &[
     // (body, must be unbound?)
@@ -200,7 +295,7 @@ pub fn run(ctx: &Ctx) -> Report {
          acceptance and (stdout, exit) and equal the reference machine; (b) capture probes: a provider with the free \
          name `v` imported under 12 importer binder forms that bind `v`, nested to depth 1–3, imported directly / \
          through an intermediate file / with a companion signature / with the bracket spelling, must fail with an \
-         unbound-variable error located in the provider; (c) `that` bindings across block boundaries; non-trivial = \
+         unbound-variable error located in the provider; (c) `that` bindings across block boundaries; (d) annotated binder forms whose binder is named after a name in its own annotation (capture-free: same verdict and exit code as with a fresh name); (e) a `that` definition shadowing an enclosing parameter for block sizes 1–201 × 1–41 enclosing binders × root / imported source; non-trivial = \
          shadow printing in which a binder that is used shadows an outer binder, every probe",
     );
     let cfg = ctx.tier.pick(Cfg::quick(), Cfg::thorough());
@@ -251,6 +346,24 @@ pub fn run(ctx: &Ctx) -> Report {
         Ok(())
     });
     report.absorb(r);
+    let mut items: Vec<(String, String)> = vec![];
+    for (form, names) in SELF_ANNOTATION_FORMS {
+        for n in names.iter() {
+            items.push((form.to_string(), n.to_string()));
+        }
+    }
+    let r = run_items(ctx, "self-annotation", items, |(form, name), stats| check_self_annotation(ctx, form, name, stats));
+    report.absorb(r);
+    let mut items: Vec<(usize, usize, bool)> = vec![];
+    for extra in [0usize, 1, 2, 5, 13, 30, 80, 200] {
+        for outer in [0usize, 3, 40] {
+            for imported in [false, true] {
+                items.push((extra, outer, imported));
+            }
+        }
+    }
+    let r = run_items(ctx, "block-shadowing", items, |(extra, outer, imported), stats| check_block_shadow(ctx, *extra, *outer, *imported, stats));
+    report.absorb(r);
     report.assume("the spec resolver (core/naming.rs) implements Appendix A.2: a bindee is outside its binder's scope, arms and clauses have separate scopes, components of one pattern are siblings");
     report
 }
@@ -261,6 +374,24 @@ pub fn replay(ctx: &Ctx, doc: &Value) -> Result<(), Fail> {
         let tape = unhex(doc["tape_hex"].as_str().unwrap_or(""));
         check_case(ctx, &tape, &Cfg::quick(), &mut stats)?;
         return check_case(ctx, &tape, &Cfg::thorough(), &mut stats);
+    }
+    if doc["stage"] == "self-annotation" {
+        for (form, names) in SELF_ANNOTATION_FORMS {
+            for n in names.iter() {
+                check_self_annotation(ctx, form, n, &mut stats)?;
+            }
+        }
+        return Ok(());
+    }
+    if doc["stage"] == "block-shadowing" {
+        for extra in [0usize, 1, 2, 5, 13, 30, 80, 200] {
+            for outer in [0usize, 3, 40] {
+                for imported in [false, true] {
+                    check_block_shadow(ctx, extra, outer, imported, &mut stats)?;
+                }
+            }
+        }
+        return Ok(());
     }
     // probes are a fixed, small set: re-run them all
     for f in 0..BINDER_FORMS.len() {
